@@ -344,6 +344,40 @@ func BinCmp(v ssa.Value) (op token.Token, x, y ssa.Value, ok bool) {
 	return
 }
 
+// Holds returns the comparison that is known to hold given the branch
+// condition c: the comparison itself on the true edge, its negation on the
+// false edge (`if len(x) <= w { return }` establishes len(x) > w afterwards),
+// looking through `!`.
+func (c Cond) Holds() (op token.Token, x, y ssa.Value, ok bool) {
+	v, truth := c.V, c.True
+	for {
+		u, isNot := v.(*ssa.UnOp)
+		if !isNot || u.Op != token.NOT {
+			break
+		}
+		v, truth = u.X, !truth
+	}
+	op, x, y, ok = BinCmp(v)
+	if !ok || truth {
+		return
+	}
+	switch op {
+	case token.EQL:
+		op = token.NEQ
+	case token.NEQ:
+		op = token.EQL
+	case token.LSS:
+		op = token.GEQ
+	case token.LEQ:
+		op = token.GTR
+	case token.GTR:
+		op = token.LEQ
+	case token.GEQ:
+		op = token.LSS
+	}
+	return
+}
+
 // IsNilConst reports whether v is the nil constant.
 func IsNilConst(v ssa.Value) bool {
 	c, ok := v.(*ssa.Const)
